@@ -88,6 +88,7 @@ type runner struct {
 	// requests of the platform driver that carry their own time limit (restore: hook timeout, reset / shutdown:
 	// deadline): tag -> that limit in ms; they return within limit + exit grace (2 s) + slack
 	platTags map[string]int
+	tagOps   map[string]*Op // asynchronous API calls by tag
 	marks   map[string]int
 	ninv    int
 	opWait  time.Duration
@@ -323,7 +324,7 @@ func Run(sc *Scenario, outDir string) Outcome {
 	_ = s.Rec.StreamTo(filepath.Join(outDir, sc.ID+".partial.ndjson"))
 	defer os.Remove(filepath.Join(outDir, sc.ID+".partial.ndjson"))
 	defer s.Rec.CloseStream()
-	r := &runner{s: s, pending: map[string]chan struct{}{}, invTags: map[string]bool{}, platTags: map[string]int{}, marks: map[string]int{}, opWait: 20 * time.Second}
+	r := &runner{s: s, pending: map[string]chan struct{}{}, invTags: map[string]bool{}, platTags: map[string]int{}, tagOps: map[string]*Op{}, marks: map[string]int{}, opWait: 20 * time.Second}
 	if sc.Opt.OpWaitMs > 0 {
 		r.opWait = time.Duration(sc.Opt.OpWaitMs) * time.Millisecond
 	}
@@ -349,6 +350,7 @@ func Run(sc *Scenario, outDir string) Outcome {
 					if op.API == "restore" || op.API == "reset" || op.API == "shutdown" {
 						r.platTags[op.Tag] = op.Ms
 					}
+					r.tagOps[op.Tag] = op
 					r.mu.Unlock()
 				}
 				wg.Add(1)
@@ -389,6 +391,11 @@ func Run(sc *Scenario, outDir string) Outcome {
 				case <-time.After(bound):
 					if isInv || isPlat {
 						s.Rec.Emit("drv", "NoOutcome", "tag", op.Tag, "boundMs", bound.Milliseconds())
+					} else if co := r.tagOps[op.Tag]; co != nil && co.Who != "" {
+						// the script waited for the answer of an API call and it did not come: whether it was due is for the
+						// specification to say (a poll that is legitimately parked explains it, a call whose answer was
+						// computed or whose wake-up was enabled does not)
+						s.Rec.Emit("drv", "NoAnswer", "who", co.Who, "api", co.API, "tag", op.Tag, "boundMs", bound.Milliseconds())
 					}
 					herr = hangError{"wait " + op.Tag + " did not return"}
 				}
